@@ -37,6 +37,7 @@ type srepo struct {
 	pages    []int
 	failAt   int // > 0: the listing itself fails instead of delivering page number failAt (counted from 0); 0 = never (a first-page failure is an empty listing with an error)
 	wrap     bool
+	swallow  bool     // the repository stops paging when the callback returns an error and returns nil itself
 	blobs    [][]byte // real envelopes (real-verifier mode) or nil
 	blobMT   []string
 	mu       sync.Mutex
@@ -51,6 +52,16 @@ func (r *srepo) add(op string, i int) {
 
 // mtOf: the envelope formats alternate along the listing (scripted mode)
 func mtOf(i int) string { return lib.Formats[i%2] }
+
+const foreignEnvelopeType = "application/vnd.example.envelope.v1+json"
+
+// mtAt: the media type entry i's envelope is fetched with ('f': an envelope of a format this library does not know)
+func mtAt(listing string, i int) string {
+	if i >= 0 && i < len(listing) && listing[i] == 'f' {
+		return foreignEnvelopeType
+	}
+	return mtOf(i)
+}
 
 func sigDesc(i int) ocispec.Descriptor {
 	// (listed descriptors carry the creation time of the signature manifest, as registries report it: oldest first here,
@@ -88,6 +99,9 @@ func (r *srepo) ListSignatures(ctx context.Context, desc ocispec.Descriptor, fn 
 			i++
 		}
 		if err := fn(page); err != nil {
+			if r.swallow {
+				return nil // an iterator-style repository: the callback said stop, so it stops - and has nothing to report itself
+			}
 			if r.wrap {
 				return fmt.Errorf("wrapped by repository: %w", err)
 			}
@@ -109,7 +123,7 @@ func (r *srepo) FetchSignatureBlob(ctx context.Context, d ocispec.Descriptor) ([
 			if r.blobs != nil {
 				return r.blobs[i], ocispec.Descriptor{MediaType: r.blobMT[i], Digest: digest.FromBytes(r.blobs[i]), Size: int64(len(r.blobs[i]))}, nil
 			}
-			return []byte{r.listing[i], byte(i)}, ocispec.Descriptor{MediaType: mtOf(i)}, nil
+			return []byte{r.listing[i], byte(i)}, ocispec.Descriptor{MediaType: mtAt(r.listing, i)}, nil
 		}
 	}
 	r.add("fetch", 99)
@@ -144,7 +158,7 @@ func (v *sver) Verify(ctx context.Context, desc ocispec.Descriptor, sig []byte, 
 		sig = []byte{'e', byte(idx)}
 	}
 	v.repo.add("verify", int(sig[1]))
-	if opts.SignatureMediaType != mtOf(int(sig[1])) {
+	if opts.SignatureMediaType != mtAt(v.repo.listing, int(sig[1])) {
 		v.repo.add("verify-with-wrong-media-type", int(sig[1]))
 	}
 	// the caller's options reach the verifier as given: the metadata requirement and the plugin configuration are two things
@@ -235,6 +249,7 @@ type scenario struct {
 	wrap    bool
 	real    bool
 	failAt  int // see srepo.failAt
+	swallow bool
 }
 
 // realCOSE signs a COSE envelope; the signing time is shifted by the index so that the bytes are distinct per position.
@@ -244,7 +259,7 @@ func realCOSE(signer *lib.Ent, artifact ocispec.Descriptor, i int) []byte {
 }
 
 func (s scenario) String() string {
-	return fmt.Sprintf("listing=%q pages=%v N=%d ref=%s skip=%v wrap=%v real=%v listing-fails-at-page=%d", s.listing, s.pages, s.N, s.ref, s.skip, s.wrap, s.real, s.failAt)
+	return fmt.Sprintf("listing=%q pages=%v N=%d ref=%s skip=%v wrap=%v real=%v listing-fails-at-page=%d swallow=%v", s.listing, s.pages, s.N, s.ref, s.skip, s.wrap, s.real, s.failAt, s.swallow)
 }
 
 func main() {
@@ -313,13 +328,13 @@ func main() {
 		n := 1 + srng.Intn(6)
 		b := make([]byte, n)
 		for i := range b {
-			b[i] = "viuerier"[srng.Intn(8)]
+			b[i] = "viuerierf"[srng.Intn(9)]
 			if i == 0 && b[i] == 'r' {
 				b[i] = 'i'
 			}
 		}
 		pgs := pagings(n, true)
-		scen = append(scen, scenario{listing: string(b), pages: pgs[srng.Intn(len(pgs))], N: 1 + srng.Intn(7), ref: []string{"tag", "digest"}[srng.Intn(2)], wrap: srng.Bool()})
+		scen = append(scen, scenario{listing: string(b), pages: pgs[srng.Intn(len(pgs))], N: 1 + srng.Intn(7), ref: []string{"tag", "digest", "tag", "digest", "tag", "none-with-port", "none-trailing-colon", "none-trailing-at"}[srng.Intn(8)], wrap: srng.Bool(), swallow: srng.Intn(3) == 0})
 	}
 	// real-verifier sample
 	rng := r.Rand("real-sample")
@@ -358,7 +373,7 @@ func main() {
 	lib.Parallel(len(scen), 16, func(si int) {
 		s := scen[si]
 		n := len(s.listing)
-		repo := &srepo{resolved: artifact, listing: s.listing, pages: s.pages, wrap: s.wrap, failAt: s.failAt}
+		repo := &srepo{resolved: artifact, listing: s.listing, pages: s.pages, wrap: s.wrap, failAt: s.failAt, swallow: s.swallow}
 		if s.failAt > 0 { // only the signatures of the pages delivered before the failure were ever listed
 			n = 0
 			for _, ps := range s.pages[:s.failAt] {
@@ -405,6 +420,12 @@ func main() {
 			ref += "@" + artifact.Digest.String()
 		case "mismatch":
 			ref += "@" + other.String()
+		case "none-with-port": // a port is no tag: still a reference without tag or digest
+			ref = "localhost:5000/repo"
+		case "none-trailing-colon":
+			ref += ":"
+		case "none-trailing-at":
+			ref += "@"
 		case "mismatch-sha512":
 			ref += "@" + digest.SHA512.FromString("c10 artifact").String() // another algorithm is still another digest
 		}
@@ -421,7 +442,7 @@ func main() {
 		case s.N <= 0:
 		case s.skip:
 			wantOK = true
-		case s.ref == "none", s.ref == "mismatch", s.ref == "mismatch-sha512":
+		case strings.HasPrefix(s.ref, "none"), s.ref == "mismatch", s.ref == "mismatch-sha512":
 		default:
 			reachList = true
 			lim := n
@@ -432,7 +453,7 @@ func main() {
 				if s.listing[origin(s.listing, i)] == 'u' {
 					break
 				}
-				if s.listing[origin(s.listing, i)] == 'v' {
+				if s.listing[origin(s.listing, i)] == 'v' { // ('i', 'e', 'f': fetched and worthless - one attempt each)
 					istar, wantOK = i, true
 					break
 				}
